@@ -117,6 +117,7 @@ func work(id int, shared *sharedT, rounds int) string {
 		}
 		ok, _ := bv.Verify(zr{})
 		fmt.Fprintf(&out, "%v ", ok)
+		nilRandDefaults(&out)
 		if it == 0 {
 			// size thresholds (T14): a FAILING batch beyond every dispatch / chunking threshold (Pippenger at 95
 			// entries, anything the library might do per 128 entries), so that the per-entry fallback runs on a large
@@ -320,6 +321,54 @@ var fresh struct {
 	sctx *sr25519.SigningContext
 }
 
+// nilRandDefaults calls every entry point whose entropy source defaults to crypto/rand when nil is passed (T12): the
+// default source is process-wide, so whatever the library wraps around it is shared between goroutines.  The values are
+// random; only facts that must hold are reported (the call succeeds, the key pair works, two results differ).
+func nilRandDefaults(out *bytes.Buffer) {
+	msg := []byte("nil rand")
+	pk, sk, err := ed25519.GenerateKey(nil)
+	pk2, _, err2 := ed25519.GenerateKey(nil)
+	ok := err == nil && err2 == nil && ed25519.Verify(pk, msg, ed25519.Sign(sk, msg)) && !bytes.Equal(pk, pk2)
+	fmt.Fprintf(out, "g%v ", ok)
+	sg, err := sk.Sign(nil, msg, &ed25519.Options{AddedRandomness: true})
+	fmt.Fprintf(out, "%v ", err == nil && ed25519.Verify(pk, msg, sg))
+	xpub, xpriv, err := x25519.GenerateKey(nil)
+	xp2, err2 := x25519.GeneratePrivateKey(nil)
+	fmt.Fprintf(out, "%v ", err == nil && err2 == nil && *xpriv.Public() == *xpub && *xp2 != *xpriv)
+	kp, err := sr25519.GenerateKeyPair(nil)
+	_, err2 = sr25519.GenerateMiniSecretKey(nil)
+	_, err3 := sr25519.GenerateSecretKey(nil)
+	sok := false
+	if err == nil && err2 == nil && err3 == nil {
+		sctx := sr25519.NewSigningContext([]byte("nil rand"))
+		ssig, e := kp.Sign(nil, sctx.NewTranscriptBytes(msg))
+		sok = e == nil && kp.PublicKey().Verify(sctx.NewTranscriptBytes(msg), ssig)
+	}
+	fmt.Fprintf(out, "%v ", sok)
+	var s1, s2 scalar.Scalar
+	_, err = s1.SetRandom(nil)
+	_, err2 = s2.SetRandom(nil)
+	var r1, r2 curve.RistrettoPoint
+	_, err3 = r1.SetRandom(nil)
+	_, err4 := r2.SetRandom(nil)
+	fmt.Fprintf(out, "%v ", err == nil && err2 == nil && err3 == nil && err4 == nil && s1.Equal(&s2) == 0 && r1.Equal(&r2) == 0)
+	bv := ed25519.NewBatchVerifier()
+	bv.Add(pk, msg, ed25519.Sign(sk, msg))
+	bv.Add(pk2, msg, ed25519.Sign(sk, msg))
+	all, each := bv.Verify(nil)
+	fmt.Fprintf(out, "%v%v ", all, each)
+	pi, err := ecvrf.ProveWithAddedRandomness(nil, sk, msg)
+	vok, _ := ecvrf.Verify(pk, pi, msg)
+	fmt.Fprintf(out, "%v ", err == nil && vok)
+	tr := merlin.NewTranscript("nil rand")
+	rng, err := tr.BuildRng().Finalize(nil)
+	b1 := make([]byte, 16)
+	if err == nil {
+		_, err = rng.Read(b1)
+	}
+	fmt.Fprintf(out, "%v ", err == nil && !bytes.Equal(b1, make([]byte, 16)))
+}
+
 func coldStart(n int) []string {
 	res := make([]string, n)
 	outs := make([]bytes.Buffer, n)
@@ -414,6 +463,7 @@ func coldStart(n int) []string {
 			v := cache.NewVerifier(cache.NewLRUCache(1))
 			fmt.Fprintf(&outs[id], "%v ", v.Verify(sts[id].pk, msg, sts[id].sig))
 		},
+		func(id int) { nilRandDefaults(&outs[id]) },
 		// first use of FRESH objects that all goroutines share (anything the library fills in lazily on first use -
 		// a defaulted option field, a lazily built table - is then written concurrently).  One fresh object per
 		// entry point: after one completed call the lazy write would not happen again.
